@@ -218,4 +218,21 @@ def lastRel (t : Gkn) (ops : List BOp) : Option Bool :=
 computed for that version -/
 def expectedStatus (k : WKind) (o : Obj) : Option Status := if k = .delete then some .notFound else o.computed
 
+/-! ### `handleFatalError`: the one error report of a reporter -/
+
+/-- what the reporter has sent, and its `fatalErrorSent` flag -/
+structure FatalSt where
+  sent : List String := []
+  flag : Bool := false
+deriving Repr, DecidableEq
+
+/-- one call of `handleFatalError`; `none` = the error is (or wraps) a context error — what a handler gets when its own informer
+was stopped under it —, `some t` = any other error, with its text -/
+def handleFatal (s : FatalSt) (e : Option String) : FatalSt :=
+  match e with
+  | none => s
+  | some t => if s.flag then s else { sent := s.sent ++ [t], flag := true }
+
+def fatalSeq (es : List (Option String)) : FatalSt := es.foldl handleFatal {}
+
 end CliUtils.Reporter
